@@ -707,6 +707,18 @@ def catalog():
                               {"default": True, "labels": [], "body": {"ty": "uint", "name": "dflt", "arr": None}}]},
                           {"k": "union", "name": "u4", "swty": "color", "swvar": "disc", "arms": [
                               {"labels": ["RED"], "body": None}, {"labels": ["BLUE"], "body": {"ty": "double", "name": "a", "arr": None}}]}])
+    # case labels in the upper half of the unsigned range (written as literals and through constants), next to the largest signed one
+    spec("union:big-labels", [
+        {"k": "const", "name": "TOP", "val": "4294967295"}, {"k": "const", "name": "MID", "val": "2147483648"},
+        {"k": "union", "name": "ubig", "swty": "unsigned int", "swvar": "d", "arms": [
+            {"labels": ["2147483648"], "body": {"ty": "int", "name": "a", "arr": None}}, {"labels": ["2147483647"], "body": {"ty": "inner", "name": "b", "arr": None}},
+            {"labels": ["4294967295", "4294967294"], "body": None}, {"labels": ["3000000000"], "body": "void"}, {"labels": ["0"], "body": {"ty": "hyper", "name": "z", "arr": None}}]},
+        {"k": "union", "name": "ubigc", "swty": "unsigned int", "swvar": "d", "arms": [
+            {"labels": ["TOP"], "body": {"ty": "int", "name": "a", "arr": None}}, {"labels": ["MID"], "body": "void"},
+            {"default": True, "labels": [], "body": {"ty": "unsigned int", "name": "other", "arr": None}}]},
+        {"k": "union", "name": "imax", "swty": "int", "swvar": "d", "arms": [
+            {"labels": ["2147483647"], "body": {"ty": "int", "name": "a", "arr": None}}, {"labels": ["0"], "body": "void"}]},
+        {"k": "struct", "name": "bigs", "fields": [{"ty": "ubig", "name": "xs", "arr": ["var", ""], "opt": False}, {"ty": "ubigc", "name": "y", "arr": None, "opt": False}]}])
     # one name or one declaration in several roles at once
     spec("interactions:names-and-roles", [
         {"k": "const", "name": "N", "val": "2"},
